@@ -40,6 +40,7 @@ def cases(tier, seed):
     from fv.props.c03 import with_sensors
     ops = [with_sensors(d) for d in space.family_ops("thorough" if tier == "thorough" else "quick") if len(d["state"]) == 2]
     cse = [with_sensors(d) for d in space.family_cse(tier) if len(d["state"]) == 2]
+    defs.append(space.bind_def(5, 3, 3, order=1, sensors_shape=(3, 1), tag="-wide"))  # names x10 < x2, u10 < u2, K < c
     if tier == "quick":
         defs = defs + ops[::3] + cse[::3]
     else:
@@ -177,6 +178,11 @@ def eval_case(case):
         for i in range(len(ref.ct)):
             for j in range(len(ref.ct)):
                 cmp(p, ("M", str(i), str(j)), Mn[i][j], pt["env"])
+        for i, s_ in enumerate(ref.st):  # Covariance::<name>() is the (i, i) entry of the name-ordered matrix
+            a, b = res["results"].get(p, {}).get(("pPd", s_)), res["results"].get(p, {}).get(("pP", str(i), str(i)))
+            n += 1
+            if a is None or b is None or a != b:
+                fail("covariance-accessor", f"Covariance::{s_}() = {a!r} but covariance.data({i},{i}) = {b!r}")
         for k, (hx, H) in sens.items():
             rn = ref.readings(k)
             Q = ref.Q(k)
